@@ -195,6 +195,17 @@ def run(R):
         lines = [f"let {c[0]} = {i};" for i, c in enumerate(cases)]
         want = [f"let {c[1]} = {i};" for i, c in enumerate(cases)]
         tree = [{"p": "src.rs", "k": "f", "c": ("\n".join(lines) + "\n").encode(), "m": 0o644}]
+        # boundary positions of a FILE: a near miss (the term plus one glued letter, in each of its renderings) as the very last bytes of
+        # a file without final newline, as the very first bytes, and as the whole file; and the term itself in the same places
+        edge = []
+        for st_e in ("Snake", "Camel", "Pascal", "ScreamingSnake", "Kebab"):
+            t_e = gen.render(a, st_e)
+            glue = "N" if st_e == "ScreamingSnake" else "n"
+            front = [(glue + t_e + " = x\n", False)] if st_e in ("Snake", "ScreamingSnake", "Kebab") else []   # (nFooBar is n + FooBar: a hump)
+            for j, (txt, changes) in enumerate([("x = " + t_e + glue, False)] + front + [(t_e + glue, False),
+                                                ("x = " + t_e, True), (t_e + " = x\n", True), (t_e, True)]):
+                edge.append((f"edge_{st_e}_{j}.txt", txt, changes))
+        tree += [{"p": pth, "k": "f", "c": txt.encode(), "m": 0o644} for pth, txt, _ in edge]
         tj = cli.tree_json(tree)
         sr = H.ask({"op": "scan_tree", "tree": tj, "search": core.hx(search), "replace": core.hx(replace),
                     "options": {"styles": list(gen.DEFAULT_STYLES)}})   # what the CLI passes by default (never None)
@@ -210,6 +221,17 @@ def run(R):
             continue
         out = al.harness_tree_dict(ar["tree"])
         got = [v for k, v in out.items() if k.endswith("src.rs")][0][2].decode("utf-8", "replace").splitlines()
+        for pth, txt, changes in edge:
+            now = out.get(pth, (None, None, b""))[2].decode("utf-8", "replace")
+            stats["file_edge_cases"] = stats.get("file_edge_cases", 0) + 1
+            if not changes and now != txt:
+                fails.append({"why": f"near miss at the edge of a file: '{txt!r}' (whole content of {pth}) became '{now!r}' (term {search} -> {replace})",
+                              "identifier": txt, "search": search, "replace": replace, "class": "near_miss_at_file_edge"})
+                break
+            if changes and now == txt:
+                fails.append({"why": f"the term at the edge of a file was not rewritten: '{txt!r}' (whole content of {pth}) (term {search} -> {replace})",
+                              "identifier": txt, "search": search, "replace": replace, "class": "term_at_file_edge"})
+                break
         for (ident, exp_id, cls, head, tail), l_in, l_want, l_got in zip(cases, lines, want, got):
             stats["identifiers"] += 1
             stats["by_class"][cls] = stats["by_class"].get(cls, 0) + 1
